@@ -54,6 +54,19 @@ class Rec(IState):
         self._put("Done", event)
 
 
+class RecTick(Rec):
+    """Recording state that also VALUES the account at every quote (a tick-level user feature such as a running
+    drawdown or a stop-loss monitor): valuations then happen between quotes that share one timestamp."""
+
+    def process_EventNBBO(self, event):
+        self._put("E", event)
+        if self.broker is not None:
+            try:
+                self.broker.net_liquidation_value(False)
+            except Exception:
+                pass        # a contract without a quote yet (first bar being replayed): nothing to value
+
+
 class OnlyCustom(Feature):
     """Second observer, subscribed to one event type only."""
 
